@@ -35,7 +35,7 @@ func init() {
 		Pkgs:      []string{"timeout"},
 		Run:       runC13,
 		Technique: "static analysis: must-pass-through path queries, must-lockset dataflow and shape rules on go/ssa of timeout/timeout.go",
-		Explanation: "R1: after heap.Push in add, every path to the exit starts a worker or pokes the wake channel. " +
+		Explanation: "R1: after heap.Push in add (or wherever else a future is pushed), every path to the exit starts a worker or pokes the wake channel; starting another goroutine that pops the heap (a one-shot runner) counts only under the fact that the pushed future is due, so the path on which the runner's start condition fails still has to wake a worker. With several popping goroutines the worker is the one that listens to the wake channel, the worker count the field incremented before its start. " +
 			"R2: every `go worker()` is preceded in the same critical section by workers++; every return of the worker is preceded by workers-- under the lock, and a worker that deregistered does not continue (paths that contradict a step value or a flag they set themselves are not counted). " +
 			"R3: callbacks are invoked with the lock released. " +
 			"R4: the wake-up send is a select with default (never blocks) on a channel created with capacity >= 1 (a token is not lost while the worker is between unlock and select). " +
@@ -163,6 +163,9 @@ func resolveTimerRoles(c *Ctx) *timerRoles {
 				}
 			})
 		}
+	}
+	if len(cands) > 1 {
+		cands = r.tmWorkerCountOf(cands) // the one incremented in front of the start of the pool worker (v_timer_g.go)
 	}
 	if len(cands) != 1 {
 		c.Fatalf("role timer.workers: expected one int field incremented where workers are started, found %d", len(cands))
@@ -1462,12 +1465,13 @@ func timerLiveRules(c *Ctx, pfx string) {
 			}
 			n++
 			c.NoPath(pfx+"1", "after Push: start a worker or wake one", in, ir.Query{Fn: fn, From: in,
-				Block: func(x ssa.Instruction) bool { return isSpawn(x) || isNotify(x) }, Target: ir.IsExit},
+				Block: func(x ssa.Instruction) bool { return isSpawn(x) || isNotify(x) || r.tmRunnerForDue(x, in) }, Target: ir.IsExit},
 				"a future is queued and nobody is told: a sleeping worker keeps sleeping towards a later deadline (or no worker exists)")
 		})
 		if n == 0 {
 			c.Decide(pfx+"1", fn, "add pushes onto the heap", nil, false, "add does not call heap.Push")
 		}
+		c.timerPushAnnounced(r, pfx+"1", isSpawn, isNotify) // a Push outside add; a runner started for a due future (v_timer_g.go)
 		// the spawn branch is taken exactly when no worker exists: spawn dominated by workers == 0; notify by workers != 0 (or unconditional)
 		ir.Instrs(fn, func(in ssa.Instruction) {
 			if isSpawn(in) {
